@@ -90,7 +90,15 @@ type Axiom struct {
 	Line    int
 }
 
+type GhostField struct {
+	Struct string // pkg.Type
+	Name   string // $name
+	Type   string
+	Pkg    string
+}
+
 type ContractSet struct {
+	GhostFields map[string]*GhostField // "pkg.Type.$name"
 	Funcs     map[string]*Contract // by key
 	FuncSpecs map[string]*Contract
 	Specs     map[string]*SpecFunc // by pkgname.Name and bare Name
@@ -107,7 +115,7 @@ type rawLine struct {
 }
 
 func loadContractFiles(root string) (*ContractSet, error) {
-	cs := &ContractSet{Funcs: map[string]*Contract{}, FuncSpecs: map[string]*Contract{}, Specs: map[string]*SpecFunc{}}
+	cs := &ContractSet{Funcs: map[string]*Contract{}, FuncSpecs: map[string]*Contract{}, Specs: map[string]*SpecFunc{}, GhostFields: map[string]*GhostField{}}
 	var files []string
 	filepath.Walk(root, func(p string, info os.FileInfo, err error) error {
 		if err != nil {
@@ -163,7 +171,7 @@ func (cs *ContractSet) parseFile(path string) error {
 		line int
 	}
 	var items [][]clauseRaw
-	topKw := map[string]bool{"func": true, "spec": true, "ghost": true, "axiom": true, "funcspec": true, "lib": true}
+	topKw := map[string]bool{"func": true, "spec": true, "ghost": true, "axiom": true, "funcspec": true, "lib": true, "ghostfield": true}
 	clKw := map[string]bool{"requires": true, "ensures": true, "invariant": true, "decreases": true, "modifies": true,
 		"canary": true, "props": true, "inline": true, "trusted": true, "loop": true, "call": true, "implements": true,
 		"unroll": true, "overflow": true, "nooverflow": true, "pure": true, "free": true, "assume": true, "terminates": true, "callassume": true}
@@ -193,6 +201,18 @@ func (cs *ContractSet) parseFile(path string) error {
 		head := it[0]
 		w := firstWord(head.text)
 		switch w {
+		case "ghostfield":
+			// ghostfield bytes.Buffer.$out []rune
+			f := strings.Fields(strings.TrimSpace(strings.TrimPrefix(head.text, "ghostfield")))
+			if len(f) != 2 {
+				return fmt.Errorf("%s:%d: bad ghostfield", head.file, head.line)
+			}
+			i := strings.LastIndex(f[0], ".")
+			st := f[0][:i]
+			if !strings.Contains(st, ".") {
+				st = pkgName + "." + st
+			}
+			cs.GhostFields[st+"."+f[0][i+1:]] = &GhostField{Struct: st, Name: f[0][i+1:], Type: f[1], Pkg: pkgName}
 		case "spec", "ghost":
 			sf, err := parseSpecFunc(head.text, pkgName)
 			if err != nil {
